@@ -539,10 +539,22 @@ mutant('c10-write-before-script', ['C10'], DRV,
        "        backend.write(env, build_inputs)\n", 'WRITE-ORDER')
 mutant('c10-hooks-inside-open', ['C10'], 'bfg9000/backends/make/writer.py',
        "    post_rules_hook.run(build_inputs, buildfile, env)\n\n"
+       "    # Render the whole file",
+       "    pass\n\n    # Render the whole file",
+       'WRITE-ORDER',
+       edits=[("    post_rules_hook.run(build_inputs, buildfile, env)\n\n"
+               "    # Render the whole file",
+               "    # Render the whole file"),
+              ("    with open(filepath.string(env.base_dirs), 'w') as out:\n"
+               "        out.write(contents.getvalue())",
+               "    with open(filepath.string(env.base_dirs), 'w') as out:\n"
+               "        post_rules_hook.run(build_inputs, buildfile, env)\n"
+               "        out.write(contents.getvalue())")])
+mutant('c10-render-into-open-file', ['C10'], 'bfg9000/backends/ninja/writer.py',
+       "    contents = StringIO()\n    buildfile.write(contents)\n"
        "    with open(filepath.string(env.base_dirs), 'w') as out:\n"
-       "        buildfile.write(out)",
+       "        out.write(contents.getvalue())",
        "    with open(filepath.string(env.base_dirs), 'w') as out:\n"
-       "        post_rules_hook.run(build_inputs, buildfile, env)\n"
        "        buildfile.write(out)", 'WRITE-ORDER')
 mutant('c10-abort-without-touch', ['C10'], 'bfg9000/builtins/find.py',
        "        for i in regen_files.outputs:\n"
